@@ -322,3 +322,41 @@ def shrink(case):
         b = case["bytes"]
         for i in range(len(b)):
             yield dict(case, bytes=b[:i] + b[i + 1:])
+
+
+# ---------------------------------------------------------------------------------------------
+# secondary harness binaries (the generated-closure harnesses): a no-op `cargo build` of a crate
+# that depends on the hydro workspace costs 20-100 s on a loaded machine, so the build is skipped
+# when nothing it depends on changed: stamp = /repo HEAD + working-tree diff + untracked list +
+# the harness crate's own sources.  Only for the default /repo; alternative checkouts always build.
+def cached_build(crate, group, binary):
+    import hashlib
+    import os
+    import subprocess
+    from tools import vlib
+    if vlib.REPO != "/repo":
+        ok, bindir, log = vlib.cargo_build(crate, group)
+        return (os.path.join(bindir, binary) if ok else None), log
+    h = hashlib.sha256()
+    for cmd in (["git", "-C", vlib.REPO, "rev-parse", "HEAD"], ["git", "-C", vlib.REPO, "diff", "HEAD"],
+                ["git", "-C", vlib.REPO, "status", "--porcelain"]):
+        h.update(subprocess.run(cmd, capture_output=True).stdout)
+    cdir = os.path.join(vlib.ROOT, "harness", crate)
+    for d, dn, fs in sorted(os.walk(cdir)):
+        dn[:] = sorted(x for x in dn if x != "target")
+        for f in sorted(fs):
+            if f.endswith((".rs", ".toml", ".lock")):
+                h.update(f.encode())
+                h.update(open(os.path.join(d, f), "rb").read())
+    h.update(vlib.HOOK_CFG.encode())
+    stamp = h.hexdigest()
+    bindir = os.path.join(vlib.CACHE, "target-" + group, "debug")
+    bpath = os.path.join(bindir, binary)
+    spath = os.path.join(vlib.CACHE, "stamp-%s-%s" % (group, crate))
+    if os.path.exists(bpath) and os.path.exists(spath) and open(spath).read() == stamp:
+        return bpath, "cached"
+    ok, bindir, log = vlib.cargo_build(crate, group)
+    if not ok:
+        return None, log
+    open(spath, "w").write(stamp)
+    return os.path.join(bindir, binary), log
